@@ -12,6 +12,9 @@ import sys, os, json, re, shutil, subprocess, time, tempfile, hashlib, resource,
 
 VERIF = os.path.dirname(os.path.dirname(os.path.abspath(__file__)))
 REPO = os.environ.get("NUCLEO_REPO", "/repo")
+# where evidence/ and replays/ are written; only overridden by development runs against scratch
+# worktrees (bin/seedtest) so that they do not clobber the evidence of the registered checks
+OUT = os.environ.get("VERIF_OUT", VERIF)
 CONTRACTS = os.path.join(VERIF, "contracts")
 SHIM = os.path.join(VERIF, "shim", "memchr")
 KANI_FLAGS = ["-Z", "function-contracts", "-Z", "stubbing", "-Z", "unstable-options"]
@@ -509,7 +512,7 @@ def check(prop, tier, only=None, keep=False):
             nres = nvnative.run(cat, VERIF, REPO, dst, scratch, native_units)
             results.update(nres)
 
-        os.makedirs(os.path.join(VERIF, "replays", prop), exist_ok=True)
+        os.makedirs(os.path.join(OUT, "replays", prop), exist_ok=True)
         for u in units:
             r = results.get(u["name"])
             if r is None:
@@ -530,7 +533,9 @@ def check(prop, tier, only=None, keep=False):
                 fid = expect.split(":", 1)[1]
                 k = [x for x in known if x["id"] == fid]
                 if k:
-                    known_lines.append("KNOWN-FINDING: property=%s %s" % (prop, k[0]["what"]))
+                    line = "KNOWN-FINDING: property=%s %s" % (prop, k[0]["what"])
+                    if line not in known_lines:
+                        known_lines.append(line)
                     entry["verdict"] = "known-finding-confirmed"
                     ev_units.append(entry)
                     continue
@@ -638,7 +643,7 @@ def handle_violations(cat, prop, items, dst, scratch):
             if w:
                 rp["witness"] = w
                 rp["reproduced"] = bool(w.get("reproduced"))
-        path = os.path.join(VERIF, "replays", prop, "%s.json" % u["name"])
+        path = os.path.join(OUT, "replays", prop, "%s.json" % u["name"])
         rp["path"] = path
         json.dump(rp, open(path, "w"), indent=1)
         out.append((u, rp))
@@ -695,8 +700,8 @@ def write_evidence(cat, prop, tier, seed, units, ev_units, violations, undecided
     )
     ev = dict(property_id=prop, tier=tier, seed=seed, level=info["level"], coverage=cov,
               assumptions=assumptions + info.get("assumptions", []), wall_s=round(wall, 1), violations=len(violations))
-    os.makedirs(os.path.join(VERIF, "evidence"), exist_ok=True)
-    json.dump(ev, open(os.path.join(VERIF, "evidence", "%s.json" % prop), "w"), indent=1)
+    os.makedirs(os.path.join(OUT, "evidence"), exist_ok=True)
+    json.dump(ev, open(os.path.join(OUT, "evidence", "%s.json" % prop), "w"), indent=1)
 
 
 def replay(path):
